@@ -10,7 +10,7 @@ import Lemmas.FamBinary
 import Lemmas.FamCount
 import Lemmas.Constr
 namespace Cnfgen.C02
-open Cnfgen Fam Vars
+open Cnfgen Cnfgen.Fam.G2 Vars
 
 /-- `i` is a vertex of a graph of order `n` (vertices are `1 … n`) -/
 def V (n i : Nat) : Prop := 1 ≤ i ∧ i ≤ n
